@@ -45,6 +45,8 @@ type ClusterCase struct {
 	ColdReplicas int    `json:"cold_replicas,omitempty"`
 	HotMode      string `json:"hot_mode,omitempty"`       // store mode of the hot tier: hot | cold
 	HotTotalSize uint64 `json:"hot_total_size,omitempty"` // size-based retention of the hot tier (0 = none)
+	Faults       []*simos.Fault    `json:"faults,omitempty"`     // disk fault plan (per node), armed by group
+	NetFaults    map[string]string `json:"net_faults,omitempty"` // "host/Method/n" -> drop_request | drop_reply
 }
 
 type clusterRunner struct {
@@ -65,6 +67,8 @@ type clusterRunner struct {
 	maybe    map[model.ID]*model.Doc // documents of bulks that were not acknowledged
 	asyncIDs map[string]string       // case-level id -> id the proxy generated
 	nHot     int                     // stores[:nHot] are the hot tier
+	acked    [][]*model.Doc          // acknowledged bulks
+	hotSt, coldSt *stores.Stores
 }
 
 func (r *clusterRunner) logf(f string, a ...any) {
